@@ -6,6 +6,7 @@ import (
 	"testing"
 
 	"github.com/sarchlab/akita/v5/hooking"
+	"github.com/sarchlab/akita/v5/mem/memcontrolprotocol"
 	"github.com/sarchlab/akita/v5/mem/memprotocol"
 	"github.com/sarchlab/akita/v5/mem/rob"
 	"github.com/sarchlab/akita/v5/mem/vm"
@@ -31,6 +32,27 @@ type c21Req struct {
 	Prio  int  `json:"prio"`  // lower unit sends ready answers lowest Prio first
 }
 
+// Control steps. Each op is a short command sequence a control agent sends to
+// the ROB's Control port (mem/CONTROL_PROTOCOL.md); the agent waits for every
+// acknowledgement before it goes on, except where the kind says otherwise.
+const (
+	ctlPauseEnable = iota // Pause, ack, Hold cycles, Enable, ack
+	ctlDrainEnable        // Drain, (async) ack, Hold cycles, Enable, ack
+	ctlReset              // Reset, ack (Reset always lands the ROB in Enabled)
+	ctlPauseReset         // Pause, ack, Hold cycles, Reset, ack ("Pause -> Reset" of the protocol reference)
+	ctlDrainReset         // Drain, Hold cycles, Reset without waiting for the Drain's ack (queued behind it), both acks
+	ctlKinds
+)
+
+var ctlKindName = [ctlKinds]string{"pause-enable", "drain-enable", "reset", "pause-reset", "drain-reset"}
+
+type c21CtlOp struct {
+	Kind  int `json:"kind"`
+	After int `json:"after"` // start once the ROB has taken this many requests from Top (0: at once) ...
+	Wait  int `json:"wait"`  // ... and this many more agent cycles have passed
+	Hold  int `json:"hold"`  // agent cycles before the second command of the op
+}
+
 type c21Case struct {
 	BufferSize     int `json:"buffer_size"`
 	NumReqPerCycle int `json:"num_req_per_cycle"`
@@ -53,6 +75,11 @@ type c21Case struct {
 	AddrBase uint64 `json:"addr_base"`
 
 	Reqs []c21Req `json:"reqs"`
+
+	// control agent (absent when Ctl is empty)
+	Ctl     []c21CtlOp `json:"ctl,omitempty"`
+	CtlFreq int        `json:"ctl_freq,omitempty"`
+	CtlBuf  int        `json:"ctl_buf,omitempty"`
 
 	LowAcceptStall stallList   `json:"low_accept_stall"`
 	LowSendStall   stallList   `json:"low_send_stall"`
@@ -111,7 +138,38 @@ func genC21(rt *rapid.T) c21Case {
 	c.LowSendStall = genStalls(rt, "sendstall")
 
 	n := rapid.IntRange(1, 40).Draw(rt, "n")
-	maxDelay := rapid.SampledFrom([]int{0, 2, 8, 30, 60}).Draw(rt, "maxdelay")
+
+	// Control steps: 40% of the cases have none (the plain reorder property).
+	// A step starts after a drawn number of requests has been taken by the
+	// ROB, so it lands inside the busy phase by construction.
+	hasReset := false
+	if rapid.IntRange(0, 9).Draw(rt, "ctl-on") >= 4 {
+		c.CtlFreq = rapid.IntRange(0, len(freqTable)-1).Draw(rt, "ctlfreq")
+		c.CtlBuf = rapid.IntRange(1, 2).Draw(rt, "ctlbuf")
+		nOps := rapid.IntRange(1, 3).Draw(rt, "ctl-n")
+		for k := 0; k < nOps; k++ {
+			op := c21CtlOp{
+				Kind:  rapid.SampledFrom([]int{ctlReset, ctlReset, ctlReset, ctlPauseEnable, ctlPauseEnable, ctlDrainEnable, ctlDrainEnable, ctlPauseReset, ctlDrainReset}).Draw(rt, "ctl-kind"),
+				After: rapid.IntRange(0, n).Draw(rt, "ctl-after"),
+			}
+			if rapid.IntRange(0, 2).Draw(rt, "ctl-waiton") == 0 {
+				op.Wait = rapid.IntRange(1, 20).Draw(rt, "ctl-wait")
+			}
+			if op.Kind != ctlReset {
+				op.Hold = rapid.SampledFrom([]int{0, 1, 3, 8, 20, 50}).Draw(rt, "ctl-hold")
+			}
+			hasReset = hasReset || op.Kind == ctlReset || op.Kind == ctlPauseReset || op.Kind == ctlDrainReset
+			c.Ctl = append(c.Ctl, op)
+		}
+	}
+
+	delays := []int{0, 2, 8, 30, 60}
+	if hasReset {
+		// a Reset is interesting when the lower unit still works on requests
+		// the ROB abandons: give it service times that outlast the Reset
+		delays = []int{2, 8, 30, 30, 60, 60}
+	}
+	maxDelay := rapid.SampledFrom(delays).Draw(rt, "maxdelay")
 	writePct := rapid.SampledFrom([]int{0, 30, 50, 100}).Draw(rt, "writepct")
 	for i := 0; i < n; i++ {
 		r := c21Req{
@@ -354,6 +412,143 @@ func (r *requester) build(i int) messaging.Msg {
 	return m
 }
 
+// ---------------------------------------------------------------- scripted control agent
+
+type ctlStep struct {
+	cmd     memcontrolprotocol.Command
+	waitAck bool // send only after everything sent before has been acknowledged
+	hold    int  // agent cycles to wait before sending (counted after the acks arrived)
+}
+
+func (o c21CtlOp) steps() []ctlStep {
+	switch o.Kind {
+	case ctlPauseEnable:
+		return []ctlStep{{cmd: memcontrolprotocol.CmdPause, waitAck: true}, {cmd: memcontrolprotocol.CmdEnable, waitAck: true, hold: o.Hold}}
+	case ctlDrainEnable:
+		return []ctlStep{{cmd: memcontrolprotocol.CmdDrain, waitAck: true}, {cmd: memcontrolprotocol.CmdEnable, waitAck: true, hold: o.Hold}}
+	case ctlPauseReset:
+		return []ctlStep{{cmd: memcontrolprotocol.CmdPause, waitAck: true}, {cmd: memcontrolprotocol.CmdReset, waitAck: true, hold: o.Hold}}
+	case ctlDrainReset:
+		return []ctlStep{{cmd: memcontrolprotocol.CmdDrain, waitAck: true}, {cmd: memcontrolprotocol.CmdReset, waitAck: false, hold: o.Hold}}
+	default:
+		return []ctlStep{{cmd: memcontrolprotocol.CmdReset, waitAck: true}}
+	}
+}
+
+const (
+	ctlPhTrigger = iota
+	ctlPhWait
+	ctlPhSteps
+)
+
+// ctlTriggerCap bounds the wait for an op's request-count trigger (agent
+// cycles); after a Reset fewer requests may be left than the trigger asks for.
+const ctlTriggerCap = 1000
+
+type ctlAgent struct {
+	comp *hComp
+	port messaging.Port
+	dst  messaging.RemotePort
+	ops  []c21CtlOp
+
+	taken *int // requests the ROB has taken from its Top port so far (hook counter)
+
+	op, phase, step int
+	steps           []ctlStep
+	waited, left    int
+
+	pending map[uint64]memcontrolprotocol.Command // sent, not yet acknowledged
+	nSent   int
+	bad     string // first malformed acknowledgement
+}
+
+func (a *ctlAgent) done() bool { return a.op >= len(a.ops) }
+
+func (a *ctlAgent) tick() bool {
+	progress := false
+	if msg := a.port.RetrieveIncoming(); msg != nil {
+		a.onAck(msg)
+		progress = true
+	}
+	if a.done() {
+		return progress
+	}
+	o := a.ops[a.op]
+	switch a.phase {
+	case ctlPhTrigger:
+		if *a.taken < o.After && a.waited < ctlTriggerCap {
+			a.waited++
+			return true
+		}
+		a.phase, a.left = ctlPhWait, o.Wait
+		fallthrough
+	case ctlPhWait:
+		if a.left > 0 {
+			a.left--
+			return true
+		}
+		a.steps = o.steps()
+		a.phase, a.step, a.left = ctlPhSteps, 0, a.steps[0].hold
+		fallthrough
+	default:
+		if a.step < len(a.steps) {
+			st := a.steps[a.step]
+			if st.waitAck && len(a.pending) > 0 {
+				return progress // the acknowledgement wakes the agent up
+			}
+			if a.left > 0 {
+				a.left--
+				return true
+			}
+			if !a.port.CanSend() {
+				return progress
+			}
+			req := memcontrolprotocol.Req{Command: st.cmd}
+			req.ID = timing.GetIDGenerator().Generate()
+			req.Src = a.port.AsRemote()
+			req.Dst = a.dst
+			req.TrafficBytes = 4
+			req.TrafficClass = "memcontrolprotocol.Req"
+			a.pending[req.ID] = st.cmd
+			a.port.Send(req)
+			a.nSent++
+			a.step++
+			if a.step < len(a.steps) {
+				a.left = a.steps[a.step].hold
+			}
+			return true
+		}
+		if len(a.pending) > 0 {
+			return progress
+		}
+		a.op++
+		a.phase, a.waited = ctlPhTrigger, 0
+		return true
+	}
+}
+
+func (a *ctlAgent) onAck(msg messaging.Msg) {
+	fail := func(format string, args ...any) {
+		if a.bad == "" {
+			a.bad = fmt.Sprintf(format, args...)
+		}
+	}
+	rsp, ok := msg.(memcontrolprotocol.Rsp)
+	if !ok {
+		fail("control agent received %T", msg)
+		return
+	}
+	cmd, ok := a.pending[rsp.RspTo]
+	if !ok {
+		fail("control response with RspTo %d, which is not an unacknowledged command", rsp.RspTo)
+		return
+	}
+	delete(a.pending, rsp.RspTo)
+	if rsp.Command != cmd || !rsp.Success || rsp.Error != "" {
+		fail("command %d acknowledged with %+v", cmd, rsp)
+	}
+}
+
 // ---------------------------------------------------------------- execution + oracle
 
 const (
@@ -364,6 +559,10 @@ const (
 	evBotLeft         // connection took a shadow out of Bottom's outgoing buffer
 	evBotIn           // a lower-unit response was delivered to Bottom
 	evBotTaken        // ROB retrieved a lower-unit response from Bottom
+	evTopRecv         // a request was delivered to Top
+	evCtlIn           // a control command was delivered to Control
+	evCtlTaken        // ROB retrieved a control command from Control
+	evCtlOut          // ROB sent a control acknowledgement on Control
 )
 
 type c21Event struct {
@@ -377,13 +576,21 @@ func TestC21(t *testing.T) {
 			"each request after its own drawn delay (0-60 cycles), lowest drawn priority first, 1-3 answers/cycle, with drawn accept/send stall patterns; "+
 			"1-3 scripted requesters with drawn issue gaps and receive stalls; all port buffers 1-8 (biased to 1-2); one or two direct connections with drawn clock; "+
 			"1-40 reads/writes (masked and unmasked, PID 0-2, 1-64 bytes), one distinct address per request, read data = f(address, id seen by the lower unit, its arrival number). "+
-			"Oracle: order of RetrieveIncoming on ROB.Top == order of RspTo of messages sent on ROB.Top; per response type, Dst, data = what the lower unit returned for the shadow "+
-			"with that address, released only after that completion reached ROB.Bottom; one shadow per request with identical address/size/data/mask/PID; requesters receive exactly "+
-			"those responses; nothing left in the ROB or its ports when Run returns. Non-trivial: some completion reached the ROB while an older accepted request was still "+
-			"incomplete, with >=3 requests in the buffer at that moment")
+			"About half of the cases add a scripted control agent on ROB.Control that runs 1-3 ops {Reset | Pause,hold,Enable | Drain,hold,Enable | Pause,hold,Reset | Drain,Reset queued behind it}, "+
+			"each started after a drawn number of requests was taken by the ROB plus 0-20 cycles, hold 0-50 cycles, every command acknowledged before the next (except the queued Reset); "+
+			"the lower unit knows nothing of a Reset and answers abandoned shadows late; requesters never wait for answers. "+
+			"Oracle: a Reset (from its ack/dequeue on ROB.Control) abandons every request taken from Top so far and not yet answered and starts a new acceptance order; "+
+			"within an acceptance order, order of RetrieveIncoming on ROB.Top == order of RspTo of messages sent on ROB.Top; per response type, Dst, data = what the lower unit returned for the shadow "+
+			"of that very request (shadow identified by address and by the shadow ID the lower unit saw), released only after that shadow's completion reached ROB.Bottom; one shadow per request with "+
+			"identical address/size/data/mask/PID; no answer for an abandoned request after the Reset; every request accepted after the last Reset (all requests without a Reset, "+
+			"whatever Pause/Drain/Enable happened) answered exactly once; requesters receive exactly the responses sent; every control command acknowledged; nothing left in the ROB or its ports when Run returns. "+
+			"Non-trivial: some completion reached the ROB while an older accepted request was still incomplete with >=3 requests in the buffer, or a control step hit work in flight "+
+			"(late answer for an abandoned shadow while new transactions are buffered / lower-unit answer arriving during a Pause / Drain with >=2 in flight)")
 	defer s.End()
 	s.Assume("arrival order is the order in which the ROB retrieves requests from its Top port (port hook)")
-	s.Assume("the scripted lower unit and requesters are trusted; they obey CanSend/Peek/Retrieve like the repository's own components")
+	s.Assume("the scripted lower unit, requesters and control agent are trusted; they obey CanSend/Peek/Retrieve like the repository's own components")
+	s.Assume("mem/CONTROL_PROTOCOL.md: Reset discards all in-flight transactions and drains the Top/Bottom queues (requests queued on Top at the Reset are never answered); " +
+		"Pause freezes and Enable resumes without discarding queued traffic; Drain lets in-flight work finish; the Reset takes effect between its acknowledgement on ROB.Control and the dequeue of the command")
 
 	run := func(f kit.Failer, c c21Case) { runC21(s, f, c) }
 
@@ -471,6 +678,20 @@ func c21Exec(c c21Case, fp *fpRec) (sig, msg string, st c21Stats) {
 		}
 	}
 
+	// control agent
+	var agent *ctlAgent
+	taken := 0
+	if len(c.Ctl) > 0 {
+		buf := c.CtlBuf
+		if buf < 1 {
+			buf = 1
+		}
+		comp, port := newHComp(reg, "Ctl", freqOf(c.CtlFreq), buf)
+		agent = &ctlAgent{comp: comp, port: port, dst: ctrl.AsRemote(), ops: c.Ctl, taken: &taken,
+			pending: map[uint64]memcontrolprotocol.Command{}}
+		setTick(comp, agent.tick)
+	}
+
 	// connections
 	topConn := newConn(reg, "ConnTop", freqOf(c.ConnFreq))
 	botConn := topConn
@@ -481,6 +702,9 @@ func c21Exec(c c21Case, fp *fpRec) (sig, msg string, st c21Stats) {
 	topConn.PlugIn(ctrl)
 	for _, r := range reqs {
 		topConn.PlugIn(r.port)
+	}
+	if agent != nil {
+		topConn.PlugIn(agent.port)
 	}
 	botConn.PlugIn(bottom)
 	botConn.PlugIn(lowPort)
@@ -495,11 +719,24 @@ func c21Exec(c c21Case, fp *fpRec) (sig, msg string, st c21Stats) {
 	onHook(top, func(ctx hooking.HookCtx) {
 		switch ctx.Pos {
 		case messaging.HookPosPortMsgRetrieveIncoming:
+			taken++
 			rec(evTopIn)(ctx)
 		case messaging.HookPosPortMsgSend:
 			rec(evTopOut)(ctx)
 		case messaging.HookPosPortMsgRetrieveOutgoing:
 			rec(evTopLeft)(ctx)
+		case messaging.HookPosPortMsgRecvd:
+			rec(evTopRecv)(ctx)
+		}
+	})
+	onHook(ctrl, func(ctx hooking.HookCtx) {
+		switch ctx.Pos {
+		case messaging.HookPosPortMsgRecvd:
+			rec(evCtlIn)(ctx)
+		case messaging.HookPosPortMsgRetrieveIncoming:
+			rec(evCtlTaken)(ctx)
+		case messaging.HookPosPortMsgSend:
+			rec(evCtlOut)(ctx)
 		}
 	})
 	onHook(bottom, func(ctx hooking.HookCtx) {
@@ -520,11 +757,17 @@ func c21Exec(c c21Case, fp *fpRec) (sig, msg string, st c21Stats) {
 		for _, r := range reqs {
 			ports = append(ports, r.port)
 		}
+		if agent != nil {
+			ports = append(ports, agent.port)
+		}
 		fp.attach(engine, ports)
 	}
 
 	for _, r := range reqs {
 		r.comp.TickLater()
+	}
+	if agent != nil {
+		agent.comp.TickLater()
 	}
 
 	if ok, psig, pmsg := kit.Guard(func() { _ = engine.Run() }); !ok {
@@ -536,6 +779,9 @@ func c21Exec(c c21Case, fp *fpRec) (sig, msg string, st c21Stats) {
 		fp.addFinal("component", lowComp.Name(), lowComp.State)
 		for _, r := range reqs {
 			fp.addFinal("component", r.comp.Name(), r.comp.State)
+		}
+		if agent != nil {
+			fp.addFinal("component", agent.comp.Name(), agent.comp.State)
 		}
 		fp.addFinal("connection", topConn.Name(), topConn.State)
 		if botConn != topConn {
@@ -591,14 +837,25 @@ func c21Exec(c c21Case, fp *fpRec) (sig, msg string, st c21Stats) {
 		}
 	}
 
-	// walk the event log
-	var arrival []int           // request indices in the order the ROB accepted them
+	// walk the event log. A Reset splits the run into epochs: everything the
+	// ROB took from Top up to the end of the Reset (accepted or thrown away by
+	// the Reset's drain of the Top queue) and not answered by then is
+	// abandoned ("Reset discards all in-flight transactions ... and drains
+	// the Top/Bottom ports"); the requests accepted afterwards form a new
+	// acceptance order.
+	var arrival []int           // requests accepted in the current epoch, in order
+	nRel := 0                   // how many of them have been answered
 	released := make([]bool, n) // response sent on Top
 	completed := make([]bool, n)
 	accepted := make([]bool, n)
+	abandoned := make([]bool, n)
+	oldSlot := make([]int, n) // abandoned request -> its position in the buffer when the Reset hit
 	var sent []messaging.Msg
-	occ, topOut, botOut := 0, 0, 0
+	occ, topOut, botOut, nTaken, nResets := 0, 0, 0, 0, 0
 	nt, inversion, robFull, topFull, botFull, maxOcc := false, false, false, false, false, 0
+	inReset, paused, draining := false, false, false
+	k := map[string]bool{} // control classes that happened
+	drainInflight := 0
 	for _, e := range log {
 		switch e.kind {
 		case evTopIn:
@@ -608,6 +865,17 @@ func c21Exec(c c21Case, fp *fpRec) (sig, msg string, st c21Stats) {
 				return
 			}
 			accepted[i] = true
+			nTaken++
+			if inReset {
+				// taken off the Top queue by the Reset itself: never in the buffer
+				abandoned[i] = true
+				oldSlot[i] = -1
+				k["reset-drops-queued-requests"] = true
+				continue
+			}
+			if nResets > 0 {
+				k["requests-accepted-after-reset"] = true
+			}
 			arrival = append(arrival, i)
 			occ++
 			if occ > maxOcc {
@@ -622,15 +890,20 @@ func c21Exec(c c21Case, fp *fpRec) (sig, msg string, st c21Stats) {
 			}
 		case evTopOut:
 			sent = append(sent, e.msg)
-			k := len(sent) - 1
-			if k >= len(arrival) {
-				sig, msg = c21Failf("extra-response", "response #%d (RspTo %d) sent on Top but only %d requests were accepted so far",
-					k, e.msg.Meta().RspTo, len(arrival))
+			got := e.msg.Meta().RspTo
+			if j, ok := idToReq[got]; ok && abandoned[j] {
+				sig, msg = c21Failf("answer-for-abandoned-request", "response with RspTo %d sent on Top: request %d was in flight when Reset #%d discarded all in-flight transactions",
+					got, j, nResets)
 				return
 			}
-			want := arrival[k]
+			if nRel >= len(arrival) {
+				sig, msg = c21Failf("extra-response", "response (RspTo %d) sent on Top but all %d requests accepted so far (since the last Reset) are answered",
+					got, len(arrival))
+				return
+			}
+			want := arrival[nRel]
 			wantID := reqs[c.Reqs[want].Src].sent[want].Meta().ID
-			if got := e.msg.Meta().RspTo; got != wantID {
+			if got != wantID {
 				fsig := "rspto-not-a-request-id"
 				if j, ok := idToReq[got]; ok {
 					fsig = "release-order"
@@ -640,26 +913,41 @@ func c21Exec(c c21Case, fp *fpRec) (sig, msg string, st c21Stats) {
 				} else if _, ok := shadowIDToReq[got]; ok {
 					fsig = "rspto-is-shadow-id"
 				}
-				sig, msg = c21Failf(fsig, "response #%d on Top has RspTo %d; the #%d accepted request is request %d with id %d (accept order %v)",
-					k, got, k, want, wantID, arrival)
+				sig, msg = c21Failf(fsig, "response #%d (since the last Reset) on Top has RspTo %d; the #%d accepted request is request %d with id %d (accept order %v)",
+					nRel, got, nRel, want, wantID, arrival)
+				return
+			}
+			if d := c21RspDiff(&c, want, e.msg, reqs, low, shadowOf); d != "" {
+				extra := ""
+				if d == "data" {
+					extra = c21WhoseData(e.msg, low, shadowIDToReq, abandoned)
+				}
+				sig, msg = c21Failf(d, "response to request %d (%+v): %s mismatch: %s%s", want, c.Reqs[want], d, c21Describe(e.msg), extra)
 				return
 			}
 			if !completed[want] {
-				sig, msg = c21Failf("released-before-completion", "response to request %d sent before the lower unit's answer reached the ROB", want)
+				sig, msg = c21Failf("released-before-completion", "response to request %d sent before the lower unit's answer to that request's own shadow reached the ROB (%d Resets so far)", want, nResets)
 				return
 			}
 			released[want] = true
-			if d := c21RspDiff(&c, want, e.msg, reqs, low, shadowOf); d != "" {
-				sig, msg = c21Failf(d, "response to request %d (%+v): %s mismatch: %s", want, c.Reqs[want], d, c21Describe(e.msg))
-				return
-			}
+			nRel++
 			occ--
 			topOut++
 			if topOut >= c.TopBuf {
 				topFull = true
 			}
+			if draining {
+				k["drain-releases-responses"] = true
+			}
 		case evTopLeft:
 			topOut--
+		case evTopRecv:
+			if paused {
+				k["request-arrives-during-pause"] = true
+			}
+			if draining {
+				k["request-arrives-during-drain"] = true
+			}
 		case evBotOut:
 			botOut++
 			if botOut >= c.BottomBuf {
@@ -667,18 +955,39 @@ func c21Exec(c c21Case, fp *fpRec) (sig, msg string, st c21Stats) {
 			}
 		case evBotLeft:
 			botOut--
+		case evBotTaken:
+			if inReset {
+				k["reset-drops-queued-responses"] = true
+			}
 		case evBotIn:
 			i, ok := shadowIDToReq[e.msg.Meta().RspTo]
 			if !ok {
 				continue // cannot happen: the scripted lower unit answers only what it received
 			}
 			completed[i] = true
+			if abandoned[i] {
+				// the lower unit knows nothing of the Reset: a late answer
+				k["late-response-after-reset"] = true
+				if occ > 0 {
+					k["late-response-after-reset-while-new-transactions-buffered"] = true
+					// the abandoned request sat at buffer position oldSlot when
+					// the Reset hit; positions nRel..nRel+occ-1 (counted from
+					// the Reset) are in use by new transactions right now
+					if oldSlot[i] >= nRel && oldSlot[i] < nRel+occ {
+						k["late-response-for-reused-buffer-slot"] = true
+					}
+				}
+				continue
+			}
+			if paused && !released[i] {
+				k["response-arrives-during-pause"] = true
+			}
 			// an older accepted request still waiting for its completion?
-			for _, j := range arrival {
+			for _, j := range arrival[nRel:] {
 				if j == i {
 					break
 				}
-				if !released[j] && !completed[j] {
+				if !completed[j] {
 					inversion = true
 					if occ >= 3 {
 						nt = true
@@ -686,17 +995,103 @@ func c21Exec(c c21Case, fp *fpRec) (sig, msg string, st c21Stats) {
 					break
 				}
 			}
+		case evCtlIn:
+			if rq, ok := e.msg.(memcontrolprotocol.Req); ok && rq.Command == memcontrolprotocol.CmdReset && draining {
+				k["reset-queued-behind-drain"] = true
+			}
+		case evCtlTaken, evCtlOut:
+			var cmd memcontrolprotocol.Command
+			switch m := e.msg.(type) {
+			case memcontrolprotocol.Req:
+				cmd = m.Command
+			case memcontrolprotocol.Rsp:
+				cmd = m.Command
+			default:
+				continue
+			}
+			switch {
+			case cmd == memcontrolprotocol.CmdReset && !inReset:
+				// The Reset starts with the first of {acknowledgement sent,
+				// command dequeued} and is over with the second.
+				inReset = true
+				nResets++
+				k["reset"] = true
+				outstanding, done := 0, 0
+				for _, j := range arrival[nRel:] {
+					if completed[j] {
+						done++
+					} else {
+						outstanding++
+					}
+				}
+				if occ > 0 {
+					k["reset-with-buffered-transactions"] = true
+				}
+				if outstanding > 0 {
+					k["reset-with-outstanding-lower-requests"] = true
+				}
+				if outstanding >= 3 {
+					k["reset-with-outstanding-lower-requests>=3"] = true
+				}
+				if done > 0 {
+					k["reset-discards-completed-transaction"] = true
+				}
+				if paused {
+					k["reset-while-paused"] = true
+				}
+				if nResets > 1 {
+					k["reset-twice"] = true
+				}
+			case cmd == memcontrolprotocol.CmdReset:
+				inReset, paused, draining = false, false, false
+				for slot, j := range arrival[nRel:] {
+					abandoned[j] = true
+					oldSlot[j] = slot
+				}
+				arrival, nRel, occ = nil, 0, 0
+			case cmd == memcontrolprotocol.CmdPause && e.kind == evCtlOut:
+				paused = true
+				k["pause"] = true
+				if occ > 0 {
+					k["pause-with-inflight"] = true
+				}
+			case cmd == memcontrolprotocol.CmdEnable && e.kind == evCtlTaken:
+				paused = false
+			case cmd == memcontrolprotocol.CmdDrain && e.kind == evCtlTaken:
+				draining = true
+				k["drain"] = true
+				drainInflight = occ
+				if occ > 0 {
+					k["drain-with-inflight"] = true
+				}
+				if occ >= 3 {
+					k["drain-with-inflight>=3"] = true
+				}
+			case cmd == memcontrolprotocol.CmdDrain && e.kind == evCtlOut:
+				draining, paused = false, true
+			}
 		}
 	}
 
-	if len(sent) != n || len(arrival) != n {
+	if nTaken != n || nRel != len(arrival) {
 		fsig := "missing-response"
-		if len(arrival) != n {
+		if nTaken != n {
 			fsig = "request-never-accepted"
 		}
-		sig, msg = c21Failf(fsig, "%d requests issued, %d accepted by the ROB, %d responses sent on Top when the simulation went idle (ROB holds %d transactions)",
-			n, len(arrival), len(sent), len(robComp.State.Transactions))
+		sig, msg = c21Failf(fsig, "%d requests issued, %d taken by the ROB, %d Resets; of the %d requests accepted since the last Reset %d were answered when the simulation went idle (ROB holds %d transactions, control state %v)",
+			n, nTaken, nResets, len(arrival), nRel, len(robComp.State.Transactions), robComp.State.ControlState)
 		return
+	}
+	if agent != nil {
+		if agent.bad != "" {
+			sig, msg = c21Failf("control-ack", "%s", agent.bad)
+			return
+		}
+		if !agent.done() || len(agent.pending) != 0 || inReset {
+			sig, msg = c21Failf("control-no-ack", "control agent stuck in op %d (%d commands sent, %d not acknowledged) when the simulation went idle",
+				agent.op, agent.nSent, len(agent.pending))
+			return
+		}
 	}
 
 	// the requesters got exactly the responses addressed to them, in order
@@ -724,7 +1119,11 @@ func c21Exec(c c21Case, fp *fpRec) (sig, msg string, st c21Stats) {
 		sig, msg = c21Failf("leftover", "%d transactions left in the ROB after Run returned", l)
 		return
 	}
-	for _, p := range []messaging.Port{top, bottom, ctrl, lowPort} {
+	ports := []messaging.Port{top, bottom, ctrl, lowPort}
+	if agent != nil {
+		ports = append(ports, agent.port)
+	}
+	for _, p := range ports {
 		if p.NumIncoming() != 0 || p.NumOutgoing() != 0 {
 			sig, msg = c21Failf("leftover", "port %s holds %d incoming / %d outgoing messages after Run returned", p.Name(), p.NumIncoming(), p.NumOutgoing())
 			return
@@ -757,8 +1156,55 @@ func c21Exec(c c21Case, fp *fpRec) (sig, msg string, st c21Stats) {
 	add(c.NumRequesters > 1, "multi-requester")
 	add(c.Conns == 2, "two-connections")
 	add(maxOcc >= 8, "occupancy>=8")
-	st.nt, st.maxOcc, st.cls = nt, maxOcc, cls
+	add(len(c.Ctl) == 0, "no-control-steps")
+	for kind := 0; kind < ctlKinds; kind++ {
+		for _, o := range c.Ctl {
+			if o.Kind == kind {
+				cls = append(cls, "op:"+ctlKindName[kind])
+				break
+			}
+		}
+	}
+	for _, name := range c21CtlClasses {
+		add(k[name], name)
+	}
+	// a control step counts as non-trivial when it hit the ROB with work in
+	// flight in the way that can go wrong for the property
+	ntCtl := k["late-response-after-reset-while-new-transactions-buffered"] || k["response-arrives-during-pause"] || drainInflight >= 2
+	add(ntCtl, "control-step-with-work-in-flight")
+	st.nt, st.maxOcc, st.cls = nt || ntCtl, maxOcc, cls
 	return
+}
+
+// c21CtlClasses lists the control classes in a fixed order (no map iteration).
+var c21CtlClasses = []string{
+	"pause", "pause-with-inflight", "response-arrives-during-pause", "request-arrives-during-pause",
+	"drain", "drain-with-inflight", "drain-with-inflight>=3", "drain-releases-responses", "request-arrives-during-drain",
+	"reset", "reset-twice", "reset-while-paused", "reset-queued-behind-drain",
+	"reset-with-buffered-transactions", "reset-with-outstanding-lower-requests", "reset-with-outstanding-lower-requests>=3",
+	"reset-discards-completed-transaction", "reset-drops-queued-requests", "reset-drops-queued-responses",
+	"requests-accepted-after-reset", "late-response-after-reset",
+	"late-response-after-reset-while-new-transactions-buffered", "late-response-for-reused-buffer-slot",
+}
+
+// c21WhoseData says which shadow request the lower unit produced a response's
+// data for (diagnostics of a "data" violation).
+func c21WhoseData(m messaging.Msg, low *lowerUnit, shadowIDToReq map[uint64]int, abandoned []bool) string {
+	rsp, ok := m.(memprotocol.DataReadyRsp)
+	if !ok {
+		return ""
+	}
+	for _, sn := range low.seen {
+		if sn.result != nil && bytes.Equal(sn.result, rsp.Data) {
+			j := shadowIDToReq[sn.msg.Meta().ID]
+			what := ""
+			if abandoned[j] {
+				what = ", which a Reset had abandoned"
+			}
+			return fmt.Sprintf(" -- this is the lower unit's result for the shadow (id %d) of request %d%s", sn.msg.Meta().ID, j, what)
+		}
+	}
+	return ""
 }
 
 func c21ShadowDiff(c *c21Case, i int, m messaging.Msg) string {
